@@ -856,6 +856,7 @@ CC_BUILD = 'the builder produces exactly the compartments, flows, doses, inputs,
 CC_ORDER_EQ = 'two systems built from the same parts in different insertion orders are equal'
 CC_ORDER_HASH = 'two systems built from the same parts in different insertion orders have equal hashes'
 CC_ORDER_EQS = 'two systems built from the same parts in different insertion orders have equal eqs, names and matrix'
+CC_EQ_ERR = 'comparing two systems raises no error'
 CC_NEQ = 'a system is not equal to one that differs in a compartment attribute or flow'
 CC_OP = 'the operation changes exactly what it names (every other compartment, flow and rate unchanged)'
 CC_OP_ERR = 'the operation raises no internal error'
@@ -1173,7 +1174,7 @@ def _check_cs_case(case, with_tocs=True):
         elif hash(cs) != hash(cs1):
             add(CS + '__hash__', CC_ORDER_HASH, 'equal systems, different hashes')
     except Exception as e:
-        add(CS + '__eq__', CC_ORDER_EQ, f'comparing raised {_exc(e)}')
+        add(CS + '__eq__', CC_EQ_ERR, f'cs(order 0) == cs(order 1) raised {_exc(e)}')
     try:
         if tuple(cs.eqs) != tuple(cs1.eqs) or list(cs.compartment_names) != list(cs1.compartment_names) or \
                 cs.compartmental_matrix != cs1.compartmental_matrix or cs.amounts != cs1.amounts or \
@@ -1189,10 +1190,16 @@ def _check_cs_case(case, with_tocs=True):
         ob = _observe(back)
         if not _obs_matches(ob, ref):
             add(CS + 'to_dict', CC_DICT, _obs_diff(ob, ref))
-        elif not (back == cs):
-            add(CS + 'to_dict', CC_DICT, 'from_dict(to_dict(cs)) != cs')
         elif tuple(back.eqs) != tuple(cs.eqs):
             add(CS + 'to_dict', CC_DICT, f'eqs changed: {back.eqs} vs {cs.eqs}')
+        else:
+            try:
+                same = back == cs
+            except Exception as e:
+                same = True
+                add(CS + '__eq__', CC_EQ_ERR, f'from_dict(to_dict(cs)) == cs raised {_exc(e)}')
+            if not same:
+                add(CS + 'to_dict', CC_DICT, 'from_dict(to_dict(cs)) != cs')
     except Exception as e:
         add(CS + 'to_dict', CC_DICT, f'round trip raised {_exc(e)}')
 
@@ -1277,7 +1284,7 @@ def _check_cs_case(case, with_tocs=True):
                 if cs2 == cs or cs == cs2:
                     add(CS + '__eq__', CC_NEQ, f'system after {label} == original')
             except Exception as e:
-                add(CS + '__eq__', CC_NEQ, f'comparing with the system after {label} raised {_exc(e)}')
+                add(CS + '__eq__', CC_EQ_ERR, f'comparing with the system after {label} raised {_exc(e)}')
     if not _obs_matches(_observe(cs), ref):
         add(CB + '__init__', CC_IMMUT, 'the original system changed: ' + _obs_diff(_observe(cs), ref))
     return fails
@@ -1331,10 +1338,10 @@ def bounded_compartmental(tier):
              'n<=2 and once per (graph, outputs, input) with a rotating dose compartment for n=3')
     if tier != 'quick':
         cases += [(c, True) for c in _cs_cases(3) if not (c['input'] in (None, (c['dose'] + 1) % 3) and _with_tocs(c))]
-        cases += [(c, False) for c in _cs_cases(4, inputs_all=False)]
-        bound += (' | thorough: n=3 with the input on any compartment and to_compartmental_system everywhere; the '
-                  'same on 4 compartments (+X4) with the input on none or on the compartment after the dose '
-                  'compartment, without to_compartmental_system')
+        cases += [(c, False) for c in _cs_cases(4, inputs_all=False) if len(c['edges']) <= 4 and len(c['outs']) <= 1]
+        bound += (' | thorough: n=3 with the input on any compartment and to_compartmental_system everywhere; '
+                  '4 compartments (+X4) with <=4 flows, <=1 output flow, the input on none or on the compartment '
+                  'after the dose compartment, without to_compartmental_system')
     chunks = [cases[i::NPROC * 8] for i in range(NPROC * 8)]
     chunks = [c for c in chunks if c]
     results = _run_pool(_cs_worker, chunks)
